@@ -414,6 +414,38 @@ def run_C02(ctx):
     for fn, e in zip(fns, exps):
         correspondence(ctx, [fn], proj_read, streams.oracle_c02(e), 'C02 grammar conformance', 'tokens<=%d' % L)
     ctx['cov']['exhaustive_token_sequences'] = {'max_len': L, 'sequences': len(seqs), 'with_overrides_off_and_on': True}
+    # the two recorded findings, reproduced deliberately on their specific inputs (known_findings.json)
+    K_LINE = 'C02:string-element-mismatch-line'
+    K_STACK = 'C02:parser-stack-limit'
+    listed = {f['key']: f['what'] for f in vlib.known_findings('C02')}
+    probe_line = b'a = [ 1, "s"\n ];\n'                       # the offending element is on line 1
+    probe_deep = b'a = ' + b'(' * 5000 + b')' * 5000 + b';\n'    # derivable from the grammar
+    def sess_known(impl, rng, stats):
+        impl.do('init')
+        impl.do('read_string ' + hexs(probe_line)); impl.do('err')
+        impl.do('read_string ' + hexs(probe_deep)); impl.do('err')
+    def oracle_known(ops, outs):
+        for i, o in enumerate(ops):
+            if o == 'read_string ' + hexs(probe_line) and i + 1 < len(outs):
+                e = outs[i + 1].split(' ')
+                if outs[i].split(' ')[0] != '0' or e[0] != '2' or e[1] != streams.ERR_TEXT['mismatch']:
+                    return i + 1, 'mixed array accepted or reported with the wrong message: %s' % outs[i + 1]
+                if e[3] != '1':
+                    if e[3] == '2' and K_LINE in listed:
+                        if (K_LINE + ': ' + listed[K_LINE]) not in ctx['known_hits']:
+                            ctx['known_hits'].append(K_LINE + ': ' + listed[K_LINE])
+                    else:
+                        return i + 1, 'mismatched element on line 1 reported at line %s' % e[3]
+            if o == 'read_string ' + hexs(probe_deep) and i + 1 < len(outs):
+                if outs[i].split(' ')[0] != '1':
+                    e = outs[i + 1].split(' ')
+                    if e[0] == '2' and e[1] == b'memory exhausted'.hex() and K_STACK in listed:
+                        if (K_STACK + ': ' + listed[K_STACK]) not in ctx['known_hits']:
+                            ctx['known_hits'].append(K_STACK + ': ' + listed[K_STACK])
+                    else:
+                        return i + 1, 'a derivable text (5000 nested lists) is rejected: %s' % outs[i + 1]
+        return None
+    correspondence(ctx, [sess_known], proj_read, oracle_known, 'C02 grammar conformance', 'known-findings')
     # random long valid texts and their mutations
     rng = Rng(ctx['seed'] * 7919 + 2)
     n = 150 if ctx['tier'] == 'quick' else 20000
@@ -672,3 +704,11 @@ REGISTRY['C11'] = dict(modules=['LibconfigModel.Properties.C11'], run=props_c101
 
 import props_c17
 REGISTRY['C17'] = dict(modules=['LibconfigModel.Properties.C17'], run=props_c17.run_C17, assumptions=COMMON_ASSUMPTIONS)
+
+import props_c03
+REGISTRY['C03'] = dict(modules=['LibconfigModel.Properties.C03'], run=props_c03.run_C03, assumptions=COMMON_ASSUMPTIONS + [
+    'PARTIAL: memory safety of the C code (flex buffer pointer arithmetic, memmove/realloc, ctype on char) is observed by ASan/UBSan/LSan on the executed paths only — validation, not proof',
+    'the containers are modelled as size/index state machines (Containers.lean); that the C functions perform exactly these updates is read off strbuf.c, strvec.c, libconfig.c by hand and exercised under ASan',
+    'the generic flex/bison skeleton loops (Flex.lean, Parser.lean) are hand-written models of generated code, tied by the read correspondence; yy_get_next_buffer and the bison stack reallocation are outside the model',
+    'sizes that wrap size_t, and allocation failure (C13), are out of scope',
+])
